@@ -408,11 +408,19 @@ func (hash *SexpHash) HashDelete(key Sexp) error {
 		return nil
 	}
 
-	hash.NumKeys--
 	for i, pair := range arr {
 		res, err := hash.Env.Compare(pair.Head, key)
 		if err == nil && res == 0 {
 			hash.Map[hashval] = append(arr[0:i], arr[i+1:]...)
+			hash.NumKeys--
+			// keep KeyOrder in step: drop the deleted key.
+			for j, k := range hash.KeyOrder {
+				r2, err2 := hash.Env.Compare(k, key)
+				if err2 == nil && r2 == 0 {
+					hash.KeyOrder = append(hash.KeyOrder[0:j], hash.KeyOrder[j+1:]...)
+					break
+				}
+			}
 			break
 		}
 	}
